@@ -114,3 +114,34 @@ Theorem C07_float_order_is_ieee_b64 : forall a b : N,
    (a = 0x8000000000000000 /\ b = 0)%N).
 Proof. exact fl_lt_is_ieee_lt_64. Qed.
 Print Assumptions C07_float_order_is_ieee_b64.
+
+(* ---- the model of the numeric codecs is REGENERATED from keys.go on every run ----
+   go/cmd/srcfacts/translate_keys.go re-type-checks the generic methods Transform / Restore of
+   UnsignedBinaryKey, SignedBinaryKey and FloatBinaryKey at every concrete key type and writes them
+   as Gallina definitions (Gen/KeysGen.v, over the Go-semantics vocabulary of Model/GoArith.v);
+   Proofs/TranslateKeysFacts.v proves every one of them equal to the hand-written model the theorems
+   above are about (28 statements: 1/2/4/8-byte integers, both bits.UintSize branches of uint / int,
+   float32 / float64). Four representative ones are restated here: an edit of keys.go that changes
+   what a codec computes breaks them. *)
+From GoArt Require Import Gen.KeysGen Proofs.TranslateKeysFacts.
+
+Theorem C07_regenerated_unsigned_transform_uint64 : forall k : N,
+  (k < 2 ^ 64)%N -> g_unsigned_transform_uint64 k = enc_u 8 k.
+Proof. exact gen_unsigned_transform_uint64_eq. Qed.
+Print Assumptions C07_regenerated_unsigned_transform_uint64.
+
+Theorem C07_regenerated_signed_transform_int64 : forall k : Z,
+  (- 2 ^ 63 <= k < 2 ^ 63)%Z -> g_signed_transform_int64 k = enc_s 8 k.
+Proof. exact gen_signed_transform_int64_eq. Qed.
+Print Assumptions C07_regenerated_signed_transform_int64.
+
+(* a float64 is its IEEE-754 bit pattern *)
+Theorem C07_regenerated_float_transform_float64 : forall bits : N,
+  (bits < 2 ^ 64)%N -> g_float_transform_float64 bits = enc_f 8 bits.
+Proof. exact gen_float_transform_float64_eq. Qed.
+Print Assumptions C07_regenerated_float_transform_float64.
+
+Theorem C07_regenerated_float_restore_float64 : forall b : list N,
+  length b = 8%nat -> isbytes b = true -> g_float_restore_float64 b = dec_f 8 b.
+Proof. exact gen_float_restore_float64_eq. Qed.
+Print Assumptions C07_regenerated_float_restore_float64.
